@@ -151,6 +151,9 @@ func (c *Ctx) callbackRoots(f *ssa.Function, isCb map[*ssa.Function]bool) (cbs [
 		ncallers := 0
 		if n != nil {
 			for _, e := range n.In {
+				if !c.P.AllFuncs()[e.Caller.Func] {
+					continue // a helper that was expanded into all its callers (or a function outside the census)
+				}
 				cf := e.Caller.Func
 				if !load.InModule(cf) || c.isTestFunc(cf) || strings.Contains(load.FuncName(cf), "mocks/") {
 					continue
@@ -507,6 +510,12 @@ func premSuite(c *Ctx, _ map[string]*fsmx.Machine, s *panicSite) (bool, string) 
 		n := 0
 		if node := cg.Nodes[s.Fn]; node != nil && idx >= 0 {
 			for _, e := range node.In {
+		if !c.P.AllFuncs()[e.Caller.Func] {
+			continue // a helper that was expanded into all its callers (or a function outside the census)
+		}
+				if !c.P.AllFuncs()[e.Caller.Func] {
+					continue // a helper that was expanded into all its callers (or a function outside the census)
+				}
 				if !load.InModule(e.Caller.Func) || c.isTestFunc(e.Caller.Func) || e.Site == nil {
 					continue
 				}
@@ -798,6 +807,9 @@ func premSigningGet(c *Ctx, _ map[string]*fsmx.Machine, s *panicSite) (bool, str
 		return false, "no call-graph node"
 	}
 	for _, e := range node.In {
+		if !c.P.AllFuncs()[e.Caller.Func] {
+			continue // a helper that was expanded into all its callers (or a function outside the census)
+		}
 		cf := e.Caller.Func
 		if !load.InModule(cf) || c.isTestFunc(cf) || e.Site == nil {
 			continue
